@@ -698,6 +698,15 @@ theorem sound_mul_partial (o₁ o₂ w₁ w₂ r : Value) (hk₁ : o₁.whollyKn
   by_cases ha : (o₁.isMarked || o₂.isMarked) = true <;> by_cases hb : (w₁.isMarked || w₂.isMarked) = true <;>
     simp_all [covers_withMarks_left, covers_withMarks_right]
 
+/-- The "collapsed range is one value" conjunct of `CohMul` / `CornerSafeAdd` is only
+about NON-INTEGER ends: for integer ends cty's `rawNumberEqual` is exact comparison, and a
+missing or infinite end never collapses. -/
+theorem coh_of_integer_ends (m M : Num) (hm : m.isInt = true) (hM : M.isInt = true) :
+    cohOK (some m) (some M) = true ∧ cohOK none (some M) = true ∧ cohOK (some m) none = true := by
+  refine ⟨?_, rfl, rfl⟩
+  simp only [cohOK, isInt_coh hm hM]
+  cases (Num.cmp m M == 0) <;> rfl
+
 /-- Without null operands the second side condition is vacuous: `ZeroBoundsNumber`
 holds of every weakening of a number. -/
 theorem zeroBoundsNumber_of_number (w : Value) (x : Num) : ZeroBoundsNumber w (numVal x) = true := by
